@@ -47,6 +47,7 @@ type Gen struct {
 	refs        []string
 	usedDefault map[string]bool
 	usedAssumed map[string]bool
+	usedLemmas  map[string]bool
 	usedInlined map[string]bool
 	problems    []string
 	nameCount   map[string]int
@@ -58,7 +59,7 @@ type Gen struct {
 }
 
 func newGen(w *World, fn *ssa.Function, spec *FuncSpec) *Gen {
-	return &Gen{w: w, top: fn, spec: spec, declared: map[string]bool{}, usedDefault: map[string]bool{}, usedAssumed: map[string]bool{}, usedInlined: map[string]bool{}, nameCount: map[string]int{}, knownLens: map[string]int{}}
+	return &Gen{w: w, top: fn, spec: spec, declared: map[string]bool{}, usedDefault: map[string]bool{}, usedAssumed: map[string]bool{}, usedLemmas: map[string]bool{}, usedInlined: map[string]bool{}, nameCount: map[string]int{}, knownLens: map[string]int{}}
 }
 
 func (g *Gen) freshName(p string) string {
